@@ -114,7 +114,16 @@ impl std::fmt::Display for Literal {
             Literal::Float(i) => write!(f, "{i}")?,
 
             Literal::String(s) => {
-                write!(f, "{}", quote_string(escape_all_except_quotes(s).as_str()))?;
+                let escaped = escape_all_except_quotes(s);
+                let at_boundary = |q: char| escaped.starts_with(q) || escaped.ends_with(q);
+                if at_boundary('"') && at_boundary('\'') {
+                    // Neither kind of quote can delimit this string, since each
+                    // of them touches one of its ends (`'"`, `"a'`): escape the
+                    // double quotes instead.
+                    write!(f, "\"{}\"", escaped.replace('"', "\\\""))?;
+                } else {
+                    write!(f, "{}", quote_string(escaped.as_str()))?;
+                }
             }
 
             Literal::RawString(s) => {
